@@ -373,11 +373,21 @@ fn run_fmt2(a: &[&str]) -> String {
         [t, h] => {
             let bs = match hexdec(h) { Some(b) => b, None => return BAD.into() };
             plain_dispatch!(*t, T, {
-                match guarded(|| T::from_bytes(&bs)) {
-                    None => PANIC.into(),
-                    Some(Err(_)) => "ERR".into(),
+                let via_bytes = match guarded(|| T::from_bytes(&bs)) {
+                    None => PANIC.to_string(),
+                    Some(Err(_)) => "ERR".to_string(),
                     Some(Ok(f)) => format!("text={}", f),
-                }
+                };
+                // the `str::parse` entry point must agree with the byte entry point on every UTF-8 text
+                let via_str = match std::str::from_utf8(&bs) {
+                    Err(_) => via_bytes.clone(),
+                    Ok(st) => match guarded(|| st.parse::<T>()) {
+                        None => PANIC.to_string(),
+                        Some(Err(_)) => "ERR".to_string(),
+                        Some(Ok(f)) => format!("text={}", f.to_string()),
+                    },
+                };
+                if via_str == via_bytes { via_bytes } else { format!("{} ENTRY-DISAGREE(str::parse:{})", via_bytes, via_str) }
             }, { BAD.into() })
         }
         _ => BAD.into(),
@@ -407,6 +417,17 @@ macro_rules! norm_impl {
         };
         let r6 = match guarded(|| format!("{}", $DUAL::from_raw_form(&raw).as_normalized())) {
             Some(s) => s,
+            None => PANIC.to_string(),
+        };
+        // the same route through a dual object that held something else before (long runs in both parts)
+        let r6 = match guarded(|| {
+            let dirty = $RAW::new_from_internals_near_raw(5, &[1, 1, 1, 1, 1, 2, 2, 2, 2, 2, 2, 2, 2, 2, 3], &[4, 4, 4, 4, 4, 4, 5, 6, 6, 6, 6, 6, 6, 6, 6, 6]);
+            let mut d = $DUAL::from_raw_form(&dirty);
+            d.init_from_raw_form(&raw);
+            format!("{}", d.as_normalized())
+        }) {
+            Some(s) if s == r6 => r6,
+            Some(s) => format!("ROUTES-DISAGREE(fresh-dual:{};reused-dual:{})", r6, s),
             None => PANIC.to_string(),
         };
         let r7: $NORM = $NORM::from_raw_form(&raw);
@@ -729,9 +750,13 @@ macro_rules! tgt_impl {
         let s = t.compare(&pr);
         let s_ok = s == fresh.compare(&pr);
         format!(
-            "v={} fe={} eqv={} eqp={} s={} c={}",
+            "v={} fe={} eqv={} eqp={} s={} c={} e1={} e2={} h1={} h2={}",
             b2s(t.is_valid()), b2s(t.full_eq(&fresh) && t.full_eq(&fresh2) && s_ok),
-            b2s(t.is_equiv(&last)), b2s(t.is_equiv(&f0)), s, b2s(t.is_comparison_candidate(&pr))
+            b2s(t.is_equiv(&last)), b2s(t.is_equiv(&f0)), s, b2s(t.is_comparison_candidate(&pr)),
+            opt_u32(guarded(|| t.block_hash_1().edit_distance(pr.block_hash_1()))),
+            opt_u32(guarded(|| t.block_hash_2().edit_distance(pr.block_hash_2()))),
+            opt_bool(guarded(|| t.block_hash_1().has_common_substring(pr.block_hash_1()))),
+            opt_bool(guarded(|| t.block_hash_2().has_common_substring(pr.block_hash_2())))
         )
     }};
 }
@@ -963,12 +988,16 @@ impl<'a> Iterator for Hinted<'a> {
 
 fn run_gen(toks: &[&str]) -> String {
     let mut g = Generator::new();
+    let mut parked = Generator::new();
     let mut out: Vec<String> = Vec::new();
     for tok in toks {
         let parts: Vec<&str> = tok.split(':').collect();
         match parts.as_slice() {
             ["r"] => g.reset(),
             ["c"] => { g = g.clone(); }
+            // park a copy (into a used object, via clone_from) / overwrite the used generator with it
+            ["p"] => { parked.clone_from(&g); }
+            ["q"] => { g.clone_from(&parked); }
             ["f"] => out.push(fin_all(&g)),
             ["z", n] => match nat(n) {
                 Some(n) => { g = Generator::verif_with_prefix_zeroes(n); }
